@@ -248,7 +248,10 @@ def assemble_case(text, w, version, wd):
         return ('rejected', type(e).__name__, str(e)[:200])
     except Exception as e:  # noqa
         return ('raw', type(e).__name__, str(e)[:200])
-    return ('ok', Reader(out), load_debugging_labels(dbg))
+    try:
+        return ('ok', Reader(out), load_debugging_labels(dbg))
+    except Exception as e:  # noqa
+        return ('unreadable', type(e).__name__, str(e)[:200])
 
 
 def check_image(den, r, labels, w):
@@ -326,6 +329,10 @@ def check_sequence(seq, w, versions, wd, sieve, stats):
                        'denotation': {'impossible': den['impossible'], 'ambiguous': den['ambiguous']},
                        'summary': f'w={w} v={version} {names}: {kind}: {str(observed)[:160]}'})
 
+        if out[0] == 'unreadable':
+            bad('the assembler reported success but wrote a file that cannot be loaded', 'rejected (' + den['impossible'] + ')' if den['impossible'] else 'a loadable image',
+                f'{out[1]}: {out[2]}', 'unreadable output: ' + out[2][:40])
+            continue
         if out[0] == 'raw':
             bad('raw exception from the assembler', 'a FlipJumpException or an image', f'{out[1]}: {out[2]}', 'raw ' + out[1])
             continue
@@ -412,7 +419,7 @@ def make_tasks(tier, seed, only=None):
         # depth 4 (and 5 for a smaller core) completely over a core alphabet: the interplay pad / reserve / segment / wflip
         names = [s[0] for s in SHAPES]
         core4 = tuple(names.index(x) for x in ('nop', 'jfwd', 'wf-own6', 'wf-14-r0', 'wf-6-r0', 'wf-all', 'pad2', 'pad3', 'pad4',
-                                               'seg-gap', 'seg-adjacent', 'res-2w', 'res-lazy'))
+                                               'seg-gap', 'seg-adjacent', 'seg-overlap0', 'res-2w', 'res-lazy'))
         core5 = tuple(names.index(x) for x in ('nop', 'wf-own6', 'wf-14-r0', 'pad2', 'seg-gap', 'res-2w'))
         for w in (16, 64):
             for p in range(8):
